@@ -74,11 +74,11 @@ enum Refusal {
 }
 
 fn xid_start(c: char) -> bool {
-    // constants for the explored alphabet (ASCII letters and é start an identifier)
-    c.is_ascii_alphabetic() || c == 'é'
+    // trusted base: the Unicode tables of the unicode-xid crate (UAX #31)
+    unicode_xid::UnicodeXID::is_xid_start(c)
 }
 fn xid_continue(c: char) -> bool {
-    c.is_ascii_alphanumeric() || c == '_' || c == 'é'
+    unicode_xid::UnicodeXID::is_xid_continue(c)
 }
 
 /// reference name predicate
@@ -385,8 +385,14 @@ fn name_candidates() -> Vec<String> {
     v
 }
 
-fn check_names(acc: &mut Acc) -> u64 {
-    let names = name_candidates();
+fn check_names(acc: &mut Acc, tier: Tier) -> u64 {
+    let mut names = name_candidates();
+    // every Unicode scalar (quick: the BMP) as first and as second character of a name
+    let top = tier.pick(0xFFFFu32, 0x10FFFF);
+    for c in (0x80..=top).filter_map(char::from_u32) {
+        names.push(format!("{c}a"));
+        names.push(format!("a{c}"));
+    }
     for name in &names {
         let leaked: &'static str = Box::leak(name.clone().into_boxed_str());
         for via in ["with_function", "with_functions"] {
@@ -454,7 +460,7 @@ pub fn run(tier: Tier) -> i32 {
         Ok(Some(d)) => acc.violation(Violation { sig: "history/empty".into(), what: format!("empty builder: {d}"), case: json!({"kind": "history", "calls": []}), size: 0 }),
         Err(m) => acc.machinery(m),
     }
-    let n_names = check_names(&mut acc);
+    let n_names = check_names(&mut acc, tier);
     acc.sample("history", 1, || json!({"calls": ["with_symbol(s, i11)", "with_symbols({s: i17, t: i18, u: i19})", "with_function(f)", "with_rules([C#6, C#7]) -> refused"]}));
     acc.sample("name", 1, || json!({"candidates": ["_-", "if", "date_time", "é1", "1a", ""]}));
     rep.absorb(acc);
@@ -463,7 +469,7 @@ pub fn run(tier: Tier) -> i32 {
     rep.transitions = stats.edges + n_names;
     rep.traces = rep.acc.get("executions");
     rep.rule = "E1: every sequence of builder calls up to the bound over a 20-call alphabet (a refusal ends the history), each followed by observer rules, build and evaluation, compared with a reference builder model; plus every candidate function name (all strings <= 3 over 9 characters, every reserved word and its near misses) through both registration entry points".into();
-    rep.assume("XID_Start / XID_Continue classes of the 9-character name alphabet are written into the reference as constants");
+    rep.assume("XID_Start / XID_Continue come from the unicode-xid crate (trusted base); every Unicode scalar is tried as first and as second character of a name");
     rep.finish()
 }
 
